@@ -624,7 +624,7 @@ def _run(case, prior=False):
 # ------------------------------------------------------------------------------------------------ property
 class C14(Prop):
     id = "C14"
-    lean_modules = ["VivModel.Props.C14"]
+    lean_modules = ["VivModel.Props.C14", "VivModel.Props.C14Src"]
     build_targets = ["VivModel.Model.Pipeline", "VivModel.Model.Proto"]
     driver = "C14"
     technique = ("Lean 4 proof (pipelines over arbitrary effectful callables in a logging state monad: induction over the "
